@@ -12,7 +12,9 @@ RULE = ('drives the real extract_epochs coroutine send by send. (1) one request:
         '{0,1,2,4,5,9} x arrival call x look-back B in {0,3,4,9} over fixed chunkings (equal, ragged with empty and 1-sample chunks); '
         '(2) two requests (overlapping, back-to-back, nested, identical span, sharing a chunk) x arrival calls x one removal at every '
         'call; (3) seeded random schedules: up to 7 requests, random chunking, arrival anywhere from long before to beyond the '
-        'look-back edge, removals before/at/after completion and of unknown keys, source_complete Event set/cleared per call, '
+        'look-back edge, removals before/at/after completion and of unknown keys, source_complete Event set/cleared per call '
+        '(the caller touches its Event only on a change; is_set() after every send must equal what the caller did; fixed '
+        'schedules with an Event passed unset, idle sends, later requests, Event set at send k = every send / never), '
         'fs in {1000.0, 195312.5}, prestim/poststim in {0, k/fs, (k+0.3)/fs}, epoch_size fixed or per-request duration, '
         '(3b) off-grid request times t0 = (k+f)/fs, f in {.4,.27,-.35,.1,-.2,..} x off-grid prestim (k+{.6,.3,.85,.15,.45})/fs x '
         'off-grid poststim and epoch_size, enumerated (non-tie combinations only) and seeded random, judged against '
@@ -102,6 +104,9 @@ def impl(case):
                         target=out.append, buffer_size=case['B'] / fs, empty_queue_cb=lambda: fired.append(1),
                         removed_queue=rq, prestim_time=pre, poststim_time=post, source_complete=ev)
     pos, rid, obs, raw, notes = 0, 0, [], [], []
+    caller_set = False
+    if ev is not None and ev.is_set():
+        notes.append('source_complete Event passed unset is set after creating the extractor')
     for f, e in zip(case['feeds'], eff):
         for rq_ in f['reqs']:
             info = {'t0': rq_[0] / fs, 'metadata': {'rid': rid}}
@@ -116,8 +121,11 @@ def impl(case):
             if r[1] is not None:
                 info['key'] = r[1]
             rq.append(info)
-        if ev is not None:
+        if ev is not None and bool(f['cpl']) != caller_set:
+            # the caller touches its Event only when it changes its mind: an Event passed unset stays
+            # untouched until the caller sets it
             (ev.set if f['cpl'] else ev.clear)()
+            caller_set = bool(f['cpl'])
         base = np.array([_val(case, i) for i in range(pos, pos + f['n'])], dtype=float)
         e['chunk'] = [int(v) for v in base]
         data = np.stack([base, base + OFFS]) if multi else base
@@ -137,6 +145,9 @@ def impl(case):
             raw.append(None)
             break
         pos += f['n']
+        if ev is not None and ev.is_set() != caller_set:
+            notes.append(f'source_complete.is_set() is {ev.is_set()} after a send although the caller left it '
+                         f'{"set" if caller_set else "unset"}')
         new = out[n_out:]
         if len(new) > 1:
             notes.append('target called more than once in one send')
@@ -620,8 +631,39 @@ def _offgrid(tier, rng):
                     vals=rng.choice(['idx', 'mod']))
 
 
+def _source_complete(tier):
+    """caller-supplied source_complete Event passed UNSET: sends with nothing pending, requests arriving later,
+    the caller sets the Event at send #k (k = every send, and never): the callback may not fire before that."""
+    chunks = [4, 4, 4, 4, 4, 4, 4]
+    n = len(chunks)
+    layouts = [
+        {},                                                     # never any request
+        {2: [[9, 'a', 3]]},                                     # idle sends first, one request later
+        {0: [[1, 'a', 3]], 3: [[13, 'b', 3]]},                  # delivered, idle, then another request
+        {1: [[5, 'a', 3]], 4: [[14, 'b', 3], [18, 'c', 3]]},    # idle, burst, idle, burst spanning chunks
+        {2: [[6, 'a', 3]], 5: [[22, 'b', 3]]},                  # second epoch completes with the last chunk
+    ]
+    i = 0
+    for reqs in layouts:
+        for k in list(range(n)) + [None]:
+            cpl = [(k is not None and j >= k) for j in range(n)]
+            i += 1
+            yield _case(KINDS[i % 4], 1000.0, 4, _feeds(chunks, reqs, None, cpl), size=3, sc=True)
+        # set, cleared again by the caller, set again
+        yield _case(KINDS[i % 4], 1000.0, 4, _feeds(chunks, reqs, None, [False, True, False, False, True, True, True]),
+                    size=3, sc=True)
+        # with a removal that empties the pending set
+        if reqs:
+            a = max(reqs)
+            r0 = reqs[a][0]
+            for k in (0, a, n - 1, None):
+                cpl = [(k is not None and j >= k) for j in range(n)]
+                yield _case('P1', 1000.0, 4, _feeds(chunks, reqs, {a: [[r0[0], r0[1]]]}, cpl), size=3, sc=True)
+
+
 def cases(tier, rng):
     yield from _fixed()
+    yield from _source_complete(tier)
     yield from _single(tier)
     yield from _pairs(tier, rng)
     yield from _random(tier, rng)
